@@ -399,6 +399,13 @@ impl System for IndSys {
 fn main() {
 	let mut h = H::start("C09");
 	let thorough = h.thorough();
+	// builds with a wider PeriodType (sub-run of C20): Buffered::get at lengths and indices beyond 255
+	if std::env::var("VERIF_WIDE").is_ok() && (PeriodType::MAX as u64) > 255 {
+		let ns: Vec<usize> = (1..=40).chain([127, 128, 254, 255, 256, 257, 300, 1000]).collect();
+		h.go(&checks::buffered::BufSys { ns }, &Limits::depth(3000).wall_secs(300), true);
+		h.go(&checks::buffered::HistSys { blocks: 12 }, &Limits::depth(1200).wall_secs(300), true);
+		h.finish();
+	}
 	for sp in registry() {
 		let name: &'static str = sp.name;
 		let al = inputs(sp.input);
